@@ -30,7 +30,7 @@ SEQ_FUNCS = [
     "sedpack.io.dataset_writing:DatasetWriting.write_config",
     "sedpack.io.dataset_writing:DatasetWriting.write_multiprocessing",
     "sedpack.io.dataset_filler:_DatasetFillerContext.close_shard",
-    "sedpack.io.dataset_filler:DatasetFiller._update_infos",
+    "sedpack.io.dataset_filler:DatasetFiller.__exit__",
     f"{C.ITER_MOD}:RustGenerator._single_iter",
 ]
 
